@@ -1643,6 +1643,8 @@ def _levels(repo, col, R="R-C01-levels"):
             return Rat.atom("M")
         if x.op == "elem":
             return Rat.atom("e:" + x.args[0].key())
+        if x.op == "pos":
+            return Rat.atom("p:" + x.args[0].key())
         return None
 
     def level_range(elem_t):
@@ -1673,20 +1675,24 @@ def _levels(repo, col, R="R-C01-levels"):
 
     M = Rat.atom("M")
     fi = repo.func(CUF, "compute_children_in_level")
-    ts = all_terms(idxm.expander(repo, fi))
+    from sa.terms import align_positions as _alp
+    ts = [_alp(t_) for t_ in all_terms(idxm.expander(repo, fi))]   # `for b, lv in enumerate(levels)`: lv is levels[b]
     row = flt = None
+    lv_el = lambda a_: a_.op == "elem" and a_.args and is_levels(a_.args[0])
     for t_ in ts:
         row = row or T.find(t_, lambda x: x.op == "sub" and (
             (x.args[0].op == "param" and x.args[0].name == "children_row_and_col") or
             (x.args[0].op == "mcall" and x.args[0].name in ("asarray", "array") and
              T.find(x.args[0], lambda y: y.op == "param" and y.name == "children_row_and_col") is not None)))
         flt = flt or T.find(t_, lambda x: x.op == "cmp" and x.name == "==" and len(x.args) == 2 and
-                            any((a_.op == "sub" and is_levels(a_.args[0])) or is_levels(a_) for a_ in x.args))
+                            any((a_.op == "sub" and is_levels(a_.args[0])) or is_levels(a_) or lv_el(a_) for a_ in x.args))
     if row is None or flt is None:
         col.unk(R, fi, "compute_children_in_level: row selection and level filter", "building blocks not found", node=fi.node)
     else:
-        lv_side = next(a_ for a_ in flt.args if (a_.op == "sub" and is_levels(a_.args[0])) or is_levels(a_))
-        l_side = next(a_ for a_ in flt.args if a_ is not lv_side)
+        lv_side = next(a_ for a_ in flt.args if (a_.op == "sub" and is_levels(a_.args[0])) or is_levels(a_) or lv_el(a_))
+        if lv_el(lv_side):
+            lv_side = T("sub", None, [lv_side.args[0], T("pos", None, [lv_side.args[0]])], node=lv_side.node)   # the lock-step element is levels[position]
+        l_side = next(a_ for a_ in flt.args if not ((a_.op == "sub" and is_levels(a_.args[0])) or is_levels(a_) or lv_el(a_)))
         vector = is_levels(lv_side)
         contiguous = row.args[1].op == "slice" and any(b_.op != "const" for b_ in row.args[1].args)
         col.check(not contiguous, R, fi, "the rows of a level are selected by the level filter itself", "rows of ALL branches b with levels[b] == l",
